@@ -28,9 +28,10 @@ LEVEL_NOTE = ("Only sampled histories tie the theorems to the C++ (no statement 
               "not fixed, displayRoute() may end at recommendedPosition() (documented in junction.h) and may come back "
               "reversed. Violations seen only in displayRoute() while route() satisfies the clause are counted as "
               "finding classes (stats finding.cp-disp / hyper-disp / nudge-dir; finding.no-path for the straight "
-              "no-path fallback; finding.nudge-assert for the debug assertion vs[..]->id != freeSegmentID in "
-              "nudgeOrthogonalRoutes, caught via -DUSE_ASSERT_EXCEPTIONS) and become SPECFAIL only when known_findings.json names the class "
-              "(ids C11-nudge-assert, C11-cp-disp, C11-hyper-disp, C11-nudge-dir, C11-no-path, C11-border0, C11-cp-junction, "
+              "no-path fallback; finding.lib-assert for failed library assertions, caught via "
+              "-DUSE_ASSERT_EXCEPTIONS: seen are vs[..]->id != freeSegmentID in nudgeOrthogonalRoutes and "
+              "orthogonalDirectionsCount(thisDirs) > 0 in makepath.cpp) and become SPECFAIL only when known_findings.json names the class "
+              "(ids C11-lib-assert, C11-cp-disp, C11-hyper-disp, C11-nudge-dir, C11-no-path, C11-border0, C11-cp-junction, "
               "C11-del-attached) - see the C11 report.")
 TECHNIQUE = "Lean 4 theorems (pin position model, assignment state machine, checker soundness) + correspondence harness over move/resize histories"
 RULE = ("random scenes: 2-4 rectangles in own grid cells with 1-5 pins each (proportional/absolute, all sentinels, "
@@ -48,7 +49,7 @@ ROOT = Path(__file__).resolve().parent.parent.parent
 # suspected-genuine-defect classes: enabled (generator mode / strict driver class) only when the
 # lead has recorded the class in known_findings.json, so that hits print KNOWN-FINDING
 GEN_CLASSES = {"C11-border0": "border0", "C11-cp-junction": "cpjunction", "C11-del-attached": "delattached"}
-DRV_CLASSES = {"C11-nudge-assert": "nudge-assert", "C11-cp-disp": "cp-disp", "C11-hyper-disp": "hyper-disp", "C11-nudge-dir": "nudge-dir", "C11-no-path": "no-path"}
+DRV_CLASSES = {"C11-lib-assert": "lib-assert", "C11-cp-disp": "cp-disp", "C11-hyper-disp": "hyper-disp", "C11-nudge-dir": "nudge-dir", "C11-no-path": "no-path"}
 
 
 def _known_ids():
